@@ -65,6 +65,7 @@ var baseStatements = []string{
 	"SELECT _ FROM ta GROUP BY SUBSTR(da, 0, 1) AS p, REPLACEALL(dc, 'p', 'q') AS r",
 	"SELECT * FROM ta WHERE LUA('script', ARRAY(da), ARRAY(db, dc)) = 'x' AND HGET('h', da) = 'y' AND SISMEMBER('s', dc)",
 	"SELECT -- force_fresh\n * FROM ta",
+	"SELECT IF(da IN (SELECT da FROM tb WHERE dc = 'p'), fa) AS i, fb FROM ta WHERE db NOT IN (1, 2) AND dc IN (SELECT dc FROM ta GROUP BY dc HAVING fa > 1) GROUP BY LEN(da) AS n, period(10s) ORDER BY i DESC LIMIT 3",
 }
 
 var tokenRe = regexp.MustCompile(`'[^']*'|[A-Za-z_][A-Za-z_0-9]*|[0-9.]+|<>|<=|>=|!=|\S`)
@@ -81,7 +82,38 @@ func genC16SQL(t *rapid.T) C16SQLCase {
 	n := rapid.IntRange(0, 4).Draw(t, "nmut")
 	for i := 0; i < n && len(toks) > 0; i++ {
 		pos := rapid.IntRange(0, len(toks)-1).Draw(t, fmt.Sprintf("pos%d", i))
-		switch rapid.IntRange(0, 8).Draw(t, fmt.Sprintf("mut%d", i)) {
+		switch rapid.IntRange(0, 11).Draw(t, fmt.Sprintf("mut%d", i)) {
+		case 9: // turn a parenthesised SELECT (or the whole statement) into a set operation
+			op := rapid.SampledFrom([]string{"UNION", "UNION ALL", "INTERSECT", "EXCEPT", "MINUS"}).Draw(t, fmt.Sprintf("setop%d", i))
+			var spans [][2]int
+			for j := 0; j+1 < len(toks); j++ {
+				if toks[j] == "(" && strings.EqualFold(toks[j+1], "SELECT") {
+					k, depth := j+1, 0
+					for k < len(toks) && !(depth == 0 && toks[k] == ")") {
+						if toks[k] == "(" {
+							depth++
+						} else if toks[k] == ")" {
+							depth--
+						}
+						k++
+					}
+					spans = append(spans, [2]int{j + 1, k})
+				}
+			}
+			if len(spans) == 0 {
+				toks = append(append(append([]string(nil), toks...), op), toks...)
+			} else {
+				sp := spans[rapid.IntRange(0, len(spans)-1).Draw(t, fmt.Sprintf("span%d", i))]
+				inner := append([]string(nil), toks[sp[0]:sp[1]]...)
+				repl := append(append(append([]string(nil), inner...), op), inner...)
+				toks = append(append(append([]string(nil), toks[:sp[0]]...), repl...), toks[sp[1]:]...)
+			}
+		case 10: // put a subquery where a value is expected
+			sub := rapid.SampledFrom([]string{"( SELECT da FROM ta )", "( SELECT fa FROM ta GROUP BY da )", "( SELECT * FROM tb LIMIT 1 )"}).Draw(t, fmt.Sprintf("sub%d", i))
+			toks[pos] = sub
+		case 11: // wrap a token in a function call
+			fn := rapid.SampledFrom([]string{"SUM", "AVG", "IF", "BOUNDED", "PERCENTILE", "SHIFT", "CROSSHIFT", "LN", "CONCAT", "SUBSTR", "SPLIT", "LEN", "ANY", "ARRAY", "LUA", "CROSSTAB", "period", "stride"}).Draw(t, fmt.Sprintf("fn%d", i))
+			toks[pos] = fn + " ( " + toks[pos] + " )"
 		case 6: // drop one argument of a call: "," and what follows up to the next "," or ")"
 			var commas []int
 			for j, tk := range toks {
